@@ -221,6 +221,48 @@ def obligations(tier):
 
         obs.append(Obligation(f'dm_simulate.{name}', body, twin=lambda cx, b=body: b(cx, wrong=True), opts={'weight': 12, 'max_paths': 200000}, desc='DensityMatrixSimulator.simulate on prep + channel + (entangler) + channel circuits over 2 qubits (all placements, split on/off, two basis initial states), all channel/gate parameters symbolic, vs ordered sum_k K rho K^dag with documented Kraus operators'))
 
+    # ---- C1b: a multi-qubit Kraus channel OBJECT used several times (general einsum path; operators with complex entries) --
+    def kraus2_body(cx, wrong=False):
+        from symx.snum import sqrt as ssqrt
+
+        n = 3
+        q = cirq.LineQubit.range(n)
+        p = cx.real('p', 0.0, 1.0)
+        t = cx.real('t', -4.0, 4.0)
+        uses = [[(0, 1)], [(0, 1), (1, 2)], [(0, 1), (1, 2), (2, 0)], [(1, 0), (1, 0)]][cx.choose('uses', 4)]
+        # two-qubit mixed-unitary Kraus pair with genuinely complex entries: sqrt(1-p) I, sqrt(p) (S (x) T)(CZ)
+        U = np.kron(np.diag([1, 1j]), np.diag([1, np.exp(0.25j * np.pi)])) @ np.diag([1, 1, 1, -1]).astype(complex)
+        if cx.mode == 'concrete':
+            a0, a1 = np.sqrt(1 - p), np.sqrt(p)
+        else:
+            a0, a1 = ssqrt(1 - p), ssqrt(p)
+        K0 = np.asarray(np.eye(4, dtype=complex) * 1, dtype=object) * a0
+        K1 = np.asarray(U, dtype=object) * a1
+        if cx.mode == 'concrete':
+            K0, K1 = K0.astype(np.complex128), K1.astype(np.complex128)
+        else:
+            from symx.proxy import wrap
+
+            K0, K1 = wrap(K0), wrap(K1)
+        ch = cirq.KrausChannel([K0, K1], validate=False)
+        ops = [cirq.X(q[0]) ** t, cirq.H(q[1]), cirq.H(q[2])] + [ch.on(q[a], q[b]) for a, b in uses]
+        rho = np.zeros((8, 8), dtype=object)
+        rho[:] = 0
+        rho[0, 0] = 1
+        rho = apply_kraus([D.X(t)], rho, [0], n)
+        rho = apply_kraus([D.H(1.0)], rho, [1], n)
+        rho = apply_kraus([D.H(1.0)], rho, [2], n)
+        Kd = [np.eye(4, dtype=complex) * a0, U * a1]
+        for ui, (a, b) in enumerate(uses):
+            ks = [perturb(Kd[0])] + Kd[1:] if (wrong and ui == len(uses) - 1) else Kd
+            rho = apply_kraus(ks, rho, [a, b], n)
+        res = cirq.DensityMatrixSimulator(dtype=np.complex128, split_untangled_states=bool(cx.choose('split', 2))).simulate(cirq.Circuit(ops), qubit_order=q)
+        cx.close(res.final_density_matrix, rho, label=f'DensityMatrixSimulator with one two-qubit KrausChannel object used {len(uses)} time(s)')
+        got = cirq.kraus(ch)
+        cx.close(np.asarray(got[1], dtype=object), np.asarray(Kd[1], dtype=object), label='the channel object still has its Kraus operators after the simulation')
+
+    obs.append(Obligation('dm_simulate.kraus2_reuse', kraus2_body, twin=lambda cx: kraus2_body(cx, wrong=True), opts={'weight': 8}, desc='DensityMatrixSimulator.simulate(X**t, H, H, then ONE two-qubit cirq.KrausChannel object with complex operators applied on 1-3 qubit pairs), symbolic p and t, split on/off: final state == ordered sum_k K rho K^dag (multi-qubit einsum path of apply_channel) and the channel object keeps its operators'))
+
     # ---- C2: zero-qubit operations (global phase) inside mixed-state simulation: no effect on the density matrix ------
     def gphase_body(cx, wrong=False):
         n = 2
